@@ -31,13 +31,14 @@ def famIdx (kv : KV) : String × String :=
   let rog := KV.getD kv "kind" "seek" == "rog"
   -- ReadOrGenerateIndex on a CARv2 that carries an index: the embedded index, read back
   let embedded : Option (Except Err Index) :=
-    if rog && src.take 11 == pragma then
-      match readV2Header ((src.drop 11).take 40) with
+    if rog then
+      match readHeader o.maxHeader src with
       | .ok (h, _) =>
-        if h.hasIndex then
-          some (match Index.read (src.drop h.indexOffset) with
-            | .ok (ix, _) => .ok ix
-            | .error _ => .error .other)
+        if h.version = 2 then
+          match readV2Header ((src.drop 11).take 40) with
+          | .ok (v2h, _) =>
+            if v2h.hasIndex then some (readOrGenerateIndex o (if codec == "sorted" then codecSorted else codecMhSorted) src) else none
+          | .error _ => none
         else none
       | .error _ => none
     else none
